@@ -169,7 +169,90 @@ func c09Run(c *fw.Ctx, idx int) {
 		}
 	}
 	if c.Guard("panic", func() {
-		switch r.Intn(4) {
+		switch r.Intn(6) {
+		case 4:
+			// exchange the geometry with another one of its type (most of the time with
+			// the same number of parts, of other sizes) and measure what it holds now
+			g2 := gen.Shape(r, kind, g.Layout, gen.SmallInt, gen.ShapeOpts{CoordFn: c09CoordFn(r.Intn(5)), MaxPts: 8})
+			for try := 0; try < 12 && g2.Shape() == g.Shape(); try++ {
+				g2 = gen.Shape(r, kind, g.Layout, gen.SmallInt, gen.ShapeOpts{CoordFn: c09CoordFn(r.Intn(5)), MaxPts: 8})
+			}
+			if kind == model.MultiPolygon && len(g.C3) > 0 && r.Chance(3, 4) {
+				// the same number of polygons, each of another size
+				g2 = &model.G{Kind: kind, Layout: g.Layout}
+				for range g.C3 {
+					p := gen.Shape(r, model.Polygon, g.Layout, gen.SmallInt, gen.ShapeOpts{CoordFn: c09CoordFn(r.Intn(5)), MaxPts: 8})
+					g2.C3 = append(g2.C3, p.C2)
+				}
+			}
+			closeRings(r, g2)
+			t2 := g2.BuildFlat()
+			if m2, ok := t2.(measurer); ok {
+				m2.Area()
+				m2.Length()
+			}
+			swapped := true
+			switch x := t.(type) {
+			case *geom.LineString:
+				x.Swap(t2.(*geom.LineString))
+			case *geom.LinearRing:
+				x.Swap(t2.(*geom.LinearRing))
+			case *geom.Polygon:
+				x.Swap(t2.(*geom.Polygon))
+			case *geom.MultiLineString:
+				x.Swap(t2.(*geom.MultiLineString))
+			case *geom.MultiPolygon:
+				x.Swap(t2.(*geom.MultiPolygon))
+			case *geom.MultiPoint:
+				x.Swap(t2.(*geom.MultiPoint))
+			case *geom.Point:
+				x.Swap(t2.(*geom.Point))
+			default:
+				swapped = false
+			}
+			if swapped {
+				*g = *g2
+				what = "Swap with another geometry"
+			}
+		case 5:
+			// a SetCoords that is refused (one coordinate of the wrong length), then the
+			// geometry is built up again by pushing parts; what it holds after the
+			// refusal is read back from it, not assumed
+			bad := gen.Shape(r, kind, g.Layout, gen.SmallInt, gen.ShapeOpts{CoordFn: c09CoordFn(r.Intn(5)), MaxPts: 8})
+			if !c09InjectBad(bad) {
+				return
+			}
+			if err := setCoordsOn(t, bad); err == nil {
+				return // nothing to inject into (no coordinate): the call was an ordinary SetCoords
+			}
+			now := model.FromGeom(t)
+			if now == nil || model.WF(t) != nil {
+				return
+			}
+			k := r.Range(1, 5)
+			for i := 0; i < k; i++ {
+				switch x := t.(type) {
+				case *geom.MultiPolygon:
+					p := gen.Shape(r, model.Polygon, g.Layout, gen.SmallInt, gen.ShapeOpts{CoordFn: c09CoordFn(r.Intn(5)), MaxPts: 8})
+					closeRings(r, p)
+					if x.Push(p.BuildFlat().(*geom.Polygon)) == nil {
+						now.C3 = append(now.C3, p.C2)
+					}
+				case *geom.MultiLineString:
+					p := gen.Shape(r, model.LineString, g.Layout, gen.SmallInt, gen.ShapeOpts{CoordFn: c09CoordFn(r.Intn(5)), MaxPts: 8})
+					if x.Push(p.BuildFlat().(*geom.LineString)) == nil {
+						now.C2 = append(now.C2, p.C1)
+					}
+				case *geom.Polygon:
+					p := gen.Shape(r, model.LinearRing, g.Layout, gen.SmallInt, gen.ShapeOpts{CoordFn: c09CoordFn(r.Intn(5)), MaxPts: 8})
+					closeRings(r, p)
+					if x.Push(p.BuildFlat().(*geom.LinearRing)) == nil {
+						now.C2 = append(now.C2, p.C1)
+					}
+				}
+			}
+			*g = *now
+			what = "a refused SetCoords, then parts pushed"
 		case 0:
 			type reverser interface{ Reverse() }
 			if rv, ok := t.(reverser); ok {
@@ -221,6 +304,39 @@ func c09Run(c *fw.Ctx, idx int) {
 	c.SetInput(map[string]any{"geometry_after": g.String(), "measured_before_and_after": what})
 	c.Count("remeasured_after_" + strings.Fields(what)[0])
 	c09Judge(c, t, m, g, kind, " after "+what)
+}
+
+// c09InjectBad gives the first coordinate of g one ordinate too many.
+func c09InjectBad(g *model.G) bool {
+	grow := func(co []float64) []float64 { return append(append([]float64{}, co...), 1) }
+	switch g.Kind {
+	case model.LineString, model.LinearRing, model.MultiPoint:
+		for i := range g.C1 {
+			if len(g.C1[i]) > 0 {
+				g.C1[i] = grow(g.C1[i])
+				return true
+			}
+		}
+	case model.Polygon, model.MultiLineString:
+		for i := range g.C2 {
+			for j := range g.C2[i] {
+				g.C2[i][j] = grow(g.C2[i][j])
+				return true
+			}
+		}
+	case model.MultiPolygon:
+		// not in the first polygon when there are several: the refusal then comes
+		// after part of the input has been taken in
+		for i := len(g.C3) - 1; i >= 0; i-- {
+			for j := range g.C3[i] {
+				for k := range g.C3[i][j] {
+					g.C3[i][j][k] = grow(g.C3[i][j][k])
+					return true
+				}
+			}
+		}
+	}
+	return false
 }
 
 // c09Judge compares Area and Length of t with the exact measures of its model g.
